@@ -189,7 +189,7 @@ Section GUARDS.
       rewrite Hkids.
       assert (Hhere : here_ok2 rc rm fo md_plain false
                 (Sch (mk_core (match fs with [] => None | _ => Some ["object"] end) nl "" None None) None [] [] [] None (props_of fs) None) = true).
-      { unfold here_ok2, here_ok, g_rw_here, g_enum_here, g_empty_here, g_excl_here, g_small_here. cbn [core_of negb orb].
+      { unfold here_ok2, here_ok, g_rw_here, g_enum_here, g_empty_here, g_small_here. cbn [core_of negb orb].
         rewrite map_fst_props, Hnd.
         assert (Hrw : forallb (fun kp => negb (forbidden md_plain (core_of (snd kp))) || negb (satb rc rm fo md_plain (snd kp) JNull)) (props_of fs) = true).
         { apply forallb_forall. intros kp _. unfold forbidden. reflexivity. }
@@ -230,9 +230,7 @@ Section GUARDS.
     intros Hfo t j Hw He Hj Hv.
     destruct (gen_root_is_gen t) as [t' [E [Hw' He']]]. rewrite E.
     assert (Hg : g_all2 rc rm fo (md_of st_default) (st_usenum st_default) (gen false t') = true) by (apply gen_guards; auto).
-    assert (Hd : g_div (gen false t') j = true).
-    { unfold g_div. rewrite gen_mults. apply forallb_forall. intros x _. reflexivity. }
-    destruct (main_visit rc rm fo st_default (gen false t') j Hg Hv Hd) as [P A].
+    destruct (main_visit rc rm fo st_default (gen false t') j Hg Hv) as [P A].
     split; [exact P|]. rewrite A. apply gen_sound; [exact Hfo|now apply He'|]. intros ->. now contradiction Hj.
   Qed.
 End GUARDS.
